@@ -240,9 +240,11 @@ PROPS = {
         native_decide_theorems=["ar4ja_profile_native", "ar4ja_tail_rank_native", "c2_facts_native", "ar4ja_r12_k1024_no_four_cycles_native",
                                 "ar4ja_profile_big_native", "ar4ja_tail_rank_big_native",
                                 # cite c2_facts_native / ar4ja_r12_k1024_no_four_cycles_native (no native_decide of their own)
-                                "c2_girth_six", "ar4ja_r12_k1024_girth_six"],
-        extra_lean_targets=["LdpcV.Props.C07Rank", "LdpcV.Props.C07Girth"],
-        extra_prop_files=["LdpcV/Props/C07Rank.lean", "LdpcV/Props/C07Girth.lean"],
+                                "c2_girth_six", "ar4ja_r12_k1024_girth_six",
+                                # cites ar4ja_tail_rank_native
+                                "ar4ja_encoder_accepts"],
+        extra_lean_targets=["LdpcV.Props.C07Rank", "LdpcV.Props.C07Girth", "LdpcV.Props.C07Enc"],
+        extra_prop_files=["LdpcV/Props/C07Rank.lean", "LdpcV/Props/C07Girth.lean", "LdpcV/Props/C07Enc.lean"],
         extra_lean_targets_thorough=["LdpcV.Props.C07Big"],
         extra_prop_files_thorough=["LdpcV/Props/C07Big.lean"],
         harness_timeout=7200, model_timeout=7200,
